@@ -147,8 +147,13 @@ func (op *Opt4RDMapRule) String() string {
 // The input data does not include option code and length bytes.
 func (op *Opt4RDMapRule) FromBytes(data []byte) error {
 	buf := uio.NewBigEndianBuffer(data)
-	op.Prefix4.Mask = net.CIDRMask(int(buf.Read8()), 32)
-	op.Prefix6.Mask = net.CIDRMask(int(buf.Read8()), 128)
+	p4Len := buf.Read8()
+	p6Len := buf.Read8()
+	if p4Len > 32 || p6Len > 128 {
+		return fmt.Errorf("invalid prefix lengths %d/%d in 4RD map rule", p4Len, p6Len)
+	}
+	op.Prefix4.Mask = net.CIDRMask(int(p4Len), 32)
+	op.Prefix6.Mask = net.CIDRMask(int(p6Len), 128)
 	op.EABitsLength = buf.Read8()
 	op.WKPAuthorized = (buf.Read8() & opt4RDWKPAuthorizedMask) != 0
 	op.Prefix4.IP = net.IP(buf.CopyN(net.IPv4len))
